@@ -1,6 +1,7 @@
 package rules
 
 import (
+	"fmt"
 	"go/ast"
 	"go/token"
 	"go/types"
@@ -10,7 +11,7 @@ import (
 )
 
 func init() {
-	Explanations["C19"] = "Decides structural necessary conditions of 'pruning removes only old block bodies and never breaks the node': (R1) the store's prune step only rewrites the Blocks record of the given id as (header, nil body, nil supplement) — it calls the block writer with two nil constants and no other bucket writer — and is invoked only by the Manager's pruning method with ids taken from the best-chain index at heights strictly below its argument (the height variable is the method's parameter or a copy of it, is otherwise only ever decreased, and the looked-up height is that variable minus a positive constant), in a loop that stops at the first missing body; (R2) every use of a block body or supplement obtained from the store in Manager methods is guarded: supplement dereferences are nil-guarded (same check as C13.R3) and in the apply/update paths a failed lookup (ok == false) leads to an error return before the block is used; (R3) the minimum-reorg-index method stops its walk back from the tip at the first height whose body lookup (Store.Block, not Store.Header) fails; (R4) a reorg failing part-way — e.g. on a pruned body — is rolled back on every path (same check as C01.R3). (R5) the store's ancestor-timestamp lookup does not go through the body-requiring block getter, so it still answers for pruned ancestors. (R2 also) a body stored straight into a container or field must keep the lookup's found flag. NOT decided: equality of states with an unpruned twin, decoder/encoder agreement for header-only records, the exact minimum reorg index."
+	Explanations["C19"] = "Decides structural necessary conditions of 'pruning removes only old block bodies and never breaks the node': (R1) the store's prune step only rewrites the Blocks record of the given id as (header, nil body, nil supplement) — it calls the block writer with two nil constants and no other bucket writer — and is invoked only by the Manager's pruning method with ids taken from the best-chain index at heights strictly below its argument (the height variable is the method's parameter or a copy of it, is otherwise only ever decreased, and the looked-up height is that variable minus a positive constant), in a loop that stops at the first missing body; (R2) every use of a block body or supplement obtained from the store in Manager methods is guarded: supplement dereferences are nil-guarded (same check as C13.R3) and in the apply/update paths a failed lookup (ok == false) leads to an error return before the block is used; (R3) the minimum-reorg-index method stops its walk back from the tip at the first height whose body lookup (Store.Block, not Store.Header) fails; (R4) a reorg failing part-way — e.g. on a pruned body — is rolled back on every path (same check as C01.R3). (R5) the store's ancestor-timestamp lookup does not go through the body-requiring block getter, so it still answers for pruned ancestors. (R2 also) a body stored straight into a container or field must keep the lookup's found flag. (R5 also) in the store's header getter no return with found=false is reachable from the nil side of a test of the record's body pointer. NOT decided: equality of states with an unpruned twin, decoder/encoder agreement for header-only records, the exact minimum reorg index."
 
 	register(&Rule{ID: "C19.R1", Prop: "C19", Floor: 2, Doc: "prune rewrites only the block record as header-only, for best-chain ids below the given height", Run: c19r1})
 	register(&Rule{ID: "C19.R3", Prop: "C19", Floor: 1, Doc: "the minimum reorg index walks back only while block bodies exist", Run: c19r3})
@@ -135,13 +136,22 @@ func c19r2(c *Ctx) {
 	c13r3(c)
 	// ok-flag discipline in the apply step and the update stream: the block value is used only on the ok side
 	r := getChainRoles(c.P)
-	bap := funcWithResults(c.P, "chain", isNamedT("types", "Block"), func(t types.Type) bool {
-		pt, ok := t.(*types.Pointer)
-		return ok && ir.IsNamed(pt.Elem(), ir.PkgPath("consensus"), "V1BlockSupplement")
-	}, isNamedT("consensus", "State"), isBasicKind(types.Bool))
+	// (a package function handing out block, supplement, parent state and found flag together, if there is one)
+	var bap *types.Func
+	func() {
+		defer func() { _ = recover() }()
+		bap = funcWithResults(c.P, "chain", isNamedT("types", "Block"), func(t types.Type) bool {
+			pt, ok := t.(*types.Pointer)
+			return ok && ir.IsNamed(pt.Elem(), ir.PkgPath("consensus"), "V1BlockSupplement")
+		}, isNamedT("consensus", "State"), isBasicKind(types.Bool))
+	}()
+	getters := []*types.Func{r.storeBlock}
+	if bap != nil {
+		getters = append(getters, bap)
+	}
 	for _, f := range r.methodsV {
 		g := f.Graph()
-		for _, call := range f.CallsTo(false, r.storeBlock, bap) {
+		for _, call := range f.CallsTo(false, getters...) {
 			n := g.NodeContaining(call.Pos())
 			as, ok := n.AST.(*ast.AssignStmt)
 			if !ok {
@@ -210,6 +220,10 @@ func c19r2(c *Ctx) {
 				if m == n || m.AST == nil || !f.MentionsObj(m.AST, false, blk) {
 					continue
 				}
+				// (a bare declaration of the variable — reached again on the next iteration of a loop — reads nothing)
+				if vs, isDecl := m.AST.(*ast.ValueSpec); isDecl && len(vs.Values) == 0 {
+					continue
+				}
 				// reached from this lookup without re-definition?
 				isFromHere := false
 				for _, d := range ReachingDefs(f, blk, m) {
@@ -231,7 +245,7 @@ func c19r2(c *Ctx) {
 					continue
 				}
 				if !reachOnlyViaFrom(f, n, m, okEdges) {
-					bad = c.P.Pos(m.Pos())
+					bad = c.P.Pos(m.Pos()) + fmt.Sprintf(" (%T)", m.AST)
 				}
 			}
 			// MinReorgIndex-style probes use only the flag; blocks used in `ok1 && ok2`-guarded bodies are covered by the edges
